@@ -478,4 +478,10 @@ PROPERTIES = PROPERTIES_STATIC
 
 GENERATORS = {}
 
-SMT = {}
+# properties that also run the MIR -> SMT engine (/verif/smt/run.py): number kernels of data/src/data/number.rs
+SMT = {
+    "C09": "every arithmetic / bitwise kernel of SimpleNumber per operand-kind arm: exact or None, at full width (integer remainder and division through the division relation; float + and - over all finite operands)",
+    "C07": "no path of any number kernel, PartialEq or PartialOrd reaches a panic, for any operand including non-finite floats",
+    "C11": "PartialEq of SimpleNumber = numeric equality of the exactly promoted operands, all four kind arms, all bit patterns",
+    "C12": "PartialOrd of SimpleNumber = natural numeric order of the exactly promoted operands, None iff NaN, all four kind arms",
+}
